@@ -1438,3 +1438,84 @@ pub fn fix_zero_len_pub(fields: &mut Vec<FieldSpec>) {
 pub fn vary_pub(proto: Proto, base: &Def, other: &Def, how: u8, pos: u8, w: u8) -> Def {
     vary(proto, base, other, how, pos, w)
 }
+
+// ---------------------------------------------------------------------------------------
+// deterministic boundary counts
+// ---------------------------------------------------------------------------------------
+
+/// Conformant packets whose record / field / set / template COUNTS sit on and around the
+/// boundaries where a narrower counter, index type or "reasonable" cap would bite (2^8, 2^10,
+/// 2^12, 2^14): records per data set, fields per template, data sets per packet, template
+/// records per template flowset (V9) resp. template sets per message (IPFIX). One-byte and
+/// four-byte unsigned fields only, so every oracle (decode, re-export, JSON) applies.
+pub fn boundary_count_cases(proto: Proto) -> Vec<Case> {
+    let mut out = vec![];
+    let pkt = |nsets: usize, body: &[u8]| -> Vec<u8> {
+        let mut w = W::default();
+        match proto {
+            Proto::V9 => enc_v9_header(&mut w, nsets as u16, &[11, 22, 33, 44]),
+            Proto::Ipfix => enc_ipfix_header(&mut w, (16 + body.len()) as u16, &[11, 22, 33]),
+        }
+        w.bytes(body);
+        w.0
+    };
+    let tpl = |id: u16, fields: Vec<(u16, u16)>| -> Vec<u8> {
+        let d = Def { kind: Kind::Plain, scope_n: 0, fields: fields.into_iter().map(|(ie, len)| FieldSpec { ie, len, ent: None }).collect() };
+        let mut r = W::default();
+        enc_template_record(&mut r, proto, id, &d);
+        let mut s = W::default();
+        enc_set(&mut s, template_set_id(proto, Kind::Plain), &r.0, 0);
+        s.0
+    };
+    let data = |id: u16, body: &[u8]| -> Vec<u8> {
+        let mut s = W::default();
+        enc_set(&mut s, id, body, 0);
+        s.0
+    };
+    for n in [254usize, 255, 256, 257, 1023, 1024, 1025, 4095, 4096, 4097, 16383, 16384, 16385] {
+        // (a) n one-byte records in one data set
+        let body: Vec<u8> = (0..n).map(|i| (i % 251 + 1) as u8).collect();
+        out.push(Case::history(vec![pkt(1, &tpl(256, vec![(5, 1)])), pkt(1, &data(256, &body))]));
+        if n > 4097 {
+            continue;
+        }
+        // (b) n one-byte fields in one template, two records
+        let body: Vec<u8> = (0..2 * n).map(|i| (i % 253 + 1) as u8).collect();
+        let mut both = tpl(300, vec![(5, 1); n]);
+        both.extend(data(300, &body));
+        out.push(Case::single(pkt(2, &both)));
+        // (c) n data sets of one four-byte record each, in one packet
+        let mut sets = vec![];
+        for i in 0..n {
+            sets.extend(data(257, &(i as u32 + 1).to_be_bytes()));
+        }
+        out.push(Case::history(vec![pkt(1, &tpl(257, vec![(1, 4)])), pkt(n, &sets)]));
+        // (d) n template definitions in one packet, then data for the first, a middle and the last id
+        let mut defs = vec![];
+        match proto {
+            Proto::V9 => {
+                let mut recs = W::default();
+                for i in 0..n {
+                    let d = Def { kind: Kind::Plain, scope_n: 0, fields: vec![FieldSpec { ie: 1, len: [1u16, 2, 4, 8][i % 4], ent: None }] };
+                    enc_template_record(&mut recs, proto, (1000 + i) as u16, &d);
+                }
+                let mut s = W::default();
+                enc_set(&mut s, 0, &recs.0, 0);
+                defs.push(pkt(1, &s.0));
+            }
+            Proto::Ipfix => {
+                let mut b = vec![];
+                for i in 0..n {
+                    b.extend(tpl((1000 + i) as u16, vec![(1, [1u16, 2, 4, 8][i % 4])]));
+                }
+                defs.push(pkt(n, &b));
+            }
+        }
+        for i in [0usize, n / 2, n - 1] {
+            let w = [1usize, 2, 4, 8][i % 4];
+            defs.push(pkt(1, &data((1000 + i) as u16, &vec![0x5a; 2 * w])));
+        }
+        out.push(Case::history(defs));
+    }
+    out
+}
